@@ -183,6 +183,18 @@ def wrap_tick(b, nid, ctx):
     b.tick = tick
 
 
+def _user_subclass(cls):
+    """what a user does with a composite: a subclass (same class name) that fills in the documented, empty hooks
+    initialise() / terminate() without calling super() - the library's own work must not live in those hooks"""
+    return type(cls.__name__, (cls,), {"initialise": lambda self: None,
+                                       "terminate": lambda self, new_status: None,
+                                       "__module__": cls.__module__})
+
+
+USER_CLASS = {c: _user_subclass(c) for c in (py_trees.composites.Sequence, py_trees.composites.Selector,
+                                             py_trees.composites.Parallel)}
+
+
 def build_leaf(nid, k, ctx, name):
     B = py_trees.behaviours
     kind = k[0]
@@ -274,7 +286,7 @@ def build(spec, ctx, names=None):
         b = build_leaf(nid, spec[2], ctx, name)
     elif t in ("Q", "S"):
         kids = [build(c, ctx, names) for c in spec[3]]
-        cls = py_trees.composites.Sequence if t == "Q" else py_trees.composites.Selector
+        cls = USER_CLASS[py_trees.composites.Sequence if t == "Q" else py_trees.composites.Selector]
         b = cls(name=name, memory=spec[2], children=kids)
     elif t == "P":
         kids = [build(c, ctx, names) for c in spec[3]]
@@ -288,7 +300,7 @@ def build(spec, ctx, names=None):
             ids = [int(x) for x in parts[2].split(",") if x != ""]
             pol = PP.SuccessOnSelected(children=[ctx.by_id[i] if i in ctx.by_id else Probe("stranger", i, ctx)
                                                  for i in ids], synchronise=parts[1] == "1")
-        b = py_trees.composites.Parallel(name=name, policy=pol, children=kids)
+        b = USER_CLASS[py_trees.composites.Parallel](name=name, policy=pol, children=kids)
     elif t == "D":
         child = build(spec[3], ctx, names)
         b = build_dec(nid, spec[2], child, ctx, name)
@@ -498,6 +510,7 @@ class LogVisitor(py_trees.visitors.VisitorBase):
 def _mgr_config(self, toks):
     d = dict(t.split("=", 1) for t in toks[1:] if "=" in t)
     self.mlog = []
+    self.hcounts = []
     self.snap = None
     tree = self.tree
     for j, c in enumerate(d.get("v", "")):
@@ -524,9 +537,9 @@ def _mgr_config(self, toks):
             v = LogVisitor(j, c == "f", self)
         tree.add_visitor(v)
     for i in range(int(d.get("pre", "0") or 0)):
-        tree.add_pre_tick_handler(lambda t, i=i: self.mlog.append("pre%d" % i))
+        tree.add_pre_tick_handler(lambda t, i=i: (self.mlog.append("pre%d" % i), self.hcounts.append(t.count)))
     for i in range(int(d.get("post", "0") or 0)):
-        tree.add_post_tick_handler(lambda t, i=i: self.mlog.append("post%d" % i))
+        tree.add_post_tick_handler(lambda t, i=i: (self.mlog.append("post%d" % i), self.hcounts.append(t.count)))
     return ["ok"]
 
 
@@ -542,8 +555,11 @@ def _mtick(self, toks):
     self.tree.visitors.append(spy)
     add = d.get("a", "")
 
+    self.hcounts = []      # tree.count as every handler saw it (implementation-only line H)
+
     def pre_once(t):
         self.mlog.append("preOnce")
+        self.hcounts.append(t.count)
         if add:
             # a handler that registers another visitor: it must take part in this very tick
             j = len([v for v in t.visitors if v is not spy])
@@ -551,7 +567,8 @@ def _mtick(self, toks):
     try:
         self.tree.tick(
             pre_tick_handler=pre_once if (d.get("p") == "1" or add) else None,
-            post_tick_handler=(lambda t: self.mlog.append("postOnce")) if d.get("q") == "1" else None)
+            post_tick_handler=(lambda t: (self.mlog.append("postOnce"), self.hcounts.append(t.count)))
+            if d.get("q") == "1" else None)
     finally:
         self.tree.visitors.remove(spy)
 
@@ -574,6 +591,7 @@ def _mtick(self, toks):
         extra = ["B %d %s" % (len(sn.visited_blackboard_client_ids), ",".join(sorted(sn.visited_blackboard_keys))),
                  "BX %d %s" % (len(cids), ",".join(sorted(keys)))]
     ctx.mseq = None
+    extra.append("H " + " ".join(str(x) for x in self.hcounts))
     return ["L " + " ".join(self.mlog), "K %d" % self.tree.count, v, q] + extra + report(self.root, ctx)
 
 
